@@ -102,6 +102,8 @@ var swOxms = []oxmDef{
 	{0x0001, 3, 4, true},   // NXM_NX_REG3
 	{0x0001, 107, 4, true}, // NXM_NX_CT_MARK
 	{0x0001, 105, 4, true}, // NXM_NX_CT_STATE
+	{0xffff, 42, 2, true},  // ONF experimenter: tcp_flags (experimenter id 0x4f4e4600 after the OXM header)
+	{0xffff, 43, 4, false}, // ONF experimenter: actset_output
 }
 
 // match returns the padded ofp_match bytes and records the expectations under prefix (e.g. "Match")
@@ -126,7 +128,12 @@ func (g *swGen) match(e *swExp, prefix string, nfields int) []byte {
 		if masked {
 			hm = 1
 		}
-		body.u16(d.class).u8(d.field<<1|hm, plen).raw(val).raw(mask)
+		if d.class == 0xffff {
+			// experimenter class: the length covers the 4-byte experimenter id as well
+			body.u16(d.class).u8(d.field<<1|hm, 4+plen).u32(0x4f4e4600).raw(val).raw(mask)
+		} else {
+			body.u16(d.class).u8(d.field<<1|hm, plen).raw(val).raw(mask)
+		}
 		e.other(fmt.Sprintf("%s.Fields.%d", prefix, i), fmt.Sprintf("oxm:%d:%d:%d:%s:%s", d.class, d.field, hm, hx0(val), hx0(mask)))
 	}
 	l := 4 + len(body.b)
@@ -304,6 +311,10 @@ func (g *swGen) packetOf(e *swExp, prefix string, choice int) []byte {
 		p := prefix + ".Data"
 		e.kind(p, "p.IPv6")
 		useHbh, useFrag := g.r.Intn(3) == 0, g.r.Intn(3) == 0
+		if g.r.Intn(4) == 0 {
+			// extension headers in an arbitrary order, a routing header among them
+			return g.ipv6AnyOrder(e, prefix, x, tc, fl, hl, sip, dip)
+		}
 		last := 58
 		if g.r.Intn(2) == 0 {
 			last = 17
@@ -366,6 +377,71 @@ func (g *swGen) packetOf(e *swExp, prefix string, choice int) []byte {
 		e.num(prefix+".Ethertype", 0x88b5)
 		e.raw(prefix+".Data", data)
 	}
+	return x.b
+}
+
+// ipv6AnyOrder: hop-by-hop, routing and fragment headers (each at most once) in a random order before the payload
+func (g *swGen) ipv6AnyOrder(e *swExp, prefix string, x *msgBB, tc, fl, hl int, sip, dip []byte) []byte {
+	p := prefix + ".Data"
+	kinds := []int{0, 43, 44}
+	g.r.Shuffle(len(kinds), func(i, j int) { kinds[i], kinds[j] = kinds[j], kinds[i] })
+	kinds = kinds[:1+g.r.Intn(3)]
+	last := []int{58, 17}[g.r.Intn(2)]
+	var chain []byte
+	for i, k := range kinds {
+		next := last
+		if i+1 < len(kinds) {
+			next = kinds[i+1]
+		}
+		switch k {
+		case 0:
+			chain = append(chain, nb().u8(next, 0).hex("010400000000").b...)
+			e.num(p+".HbhHeader.NextHeader", uint64(next))
+			e.num(p+".HbhHeader.HEL", 0)
+			e.count(p+".HbhHeader.Options", 1)
+		case 43:
+			seg := g.bytes(16)
+			left := g.r.Intn(2)
+			chain = append(chain, nb().u8(next, 2, 0, left).z(4).raw(seg).b...)
+			e.num(p+".RoutingHeader.NextHeader", uint64(next))
+			e.num(p+".RoutingHeader.HEL", 2)
+			e.num(p+".RoutingHeader.SegmentsLeft", uint64(left))
+			e.raw(p+".RoutingHeader.Data", append(make([]byte, 4), seg...))
+		default:
+			off, more, ident := g.r.Intn(8192), g.r.Intn(2), uint32(g.u(0xffffffff))
+			chain = append(chain, nb().u8(next, 0).u16(off<<3|more).u32(ident).b...)
+			e.num(p+".FragmentHeader.NextHeader", uint64(next))
+			e.num(p+".FragmentHeader.FragmentOffset", uint64(off))
+			e.num(p+".FragmentHeader.MoreFragments", uint64(more))
+			e.num(p+".FragmentHeader.Identification", uint64(ident))
+		}
+	}
+	var pl []byte
+	if last == 58 {
+		data := g.bytes(4 + g.r.Intn(20))
+		pl = nb().u8(128, 0).u16(0x1234).raw(data).b
+		e.kind(p+".Data", "p.ICMP")
+		e.raw(p+".Data.Data", data)
+	} else {
+		data := g.bytes(g.r.Intn(20))
+		sp, dp := int(g.u(0xffff)), int(g.u(0xffff))
+		pl = nb().u16(sp, dp, 8+len(data), 0).raw(data).b
+		e.kind(p+".Data", "p.UDP")
+		e.num(p+".Data.PortSrc", uint64(sp))
+		e.num(p+".Data.PortDst", uint64(dp))
+		e.raw(p+".Data.Data", data)
+	}
+	body := append(chain, pl...)
+	x.u16(0x86dd).u8(6<<4|tc>>4, (tc&0xf)<<4|fl>>16).u16(fl&0xffff, len(body)).u8(kinds[0], hl).raw(sip).raw(dip).raw(body)
+	e.num(prefix+".Ethertype", 0x86dd)
+	e.num(p+".Version", 6)
+	e.num(p+".TrafficClass", uint64(tc))
+	e.num(p+".FlowLabel", uint64(fl))
+	e.num(p+".Length", uint64(len(body)))
+	e.num(p+".NextHeader", uint64(kinds[0]))
+	e.num(p+".HopLimit", uint64(hl))
+	e.raw(p+".NWSrc", sip)
+	e.raw(p+".NWDst", dip)
 	return x.b
 }
 
